@@ -26,7 +26,7 @@ type e2eCase struct {
 	SQL   string        `json:"sql"`
 }
 
-const findingE2EIn = "plugin-in-tuple-rebound"
+const findingE2EIn = findingTypeFn
 
 func rowBag(rows []cli.Row) map[string]int {
 	bag := map[string]int{}
@@ -126,7 +126,7 @@ func asReboundIn(e gen.E) gen.E {
 
 func e2eProp(r *ev.Rec) func(e2eCase) ev.Outcome {
 	return func(c e2eCase) ev.Outcome {
-		if c.Q.Where == nil || c.Q.From.Kind != "table" || len(c.Q.Joins) > 0 || len(c.Q.With) > 0 || c.Q.Limit != nil {
+		if c.Q.From.Kind != "table" || len(c.Q.Joins) > 0 || len(c.Q.With) > 0 || c.Q.Limit != nil {
 			return ev.Outcome{Discard: true}
 		}
 		dir := plugkit.CaseDir("e")
@@ -150,7 +150,11 @@ func e2eProp(r *ev.Rec) func(e2eCase) ev.Outcome {
 			return ev.Fail("the host process crashes on the plugin query\n  plugin query: %s\n  %s\n  table:\n%s", viaPlugin.SQL(), rp.Brief(), c.Table.Render())
 		}
 		s := whereStats{ops: map[string]int{}}
-		statsOfE(*c.Q.Where, &s)
+		if c.Q.Where != nil {
+			statsOfE(*c.Q.Where, &s)
+		} else {
+			s.ops["none"] = 1
+		}
 		o := ev.Outcome{NonTrivial: s.typeFn || s.calls >= 2, Key: c.Q.SQL() + "\x00" + c.Table.Render()}
 		for op := range s.ops {
 			o.Classes = append(o.Classes, "e2e_where_"+op)
@@ -173,7 +177,7 @@ func e2eProp(r *ev.Rec) func(e2eCase) ev.Outcome {
 		}
 		bn, bp := rowBag(gotN), rowBag(gotP)
 		if !sameBag(bn, bp) {
-			if r.Known(findingE2EIn) && (s.ops["in"] > 0 || s.ops["notin"] > 0) {
+			if r.Known(findingE2EIn) && c.Q.Where != nil && (s.ops["in"] > 0 || s.ops["notin"] > 0) {
 				// attributed only if the plugin's answer is exactly what the re-bound IN / NOT IN yields
 				q2 := native
 				w := asReboundIn(*c.Q.Where)
@@ -200,9 +204,101 @@ func e2eProp(r *ev.Rec) func(e2eCase) ev.Outcome {
 func genE2E(t *rapid.T) e2eCase {
 	tbl := gen.Table(t, gen.TableOpts{Name: "t", Format: "json", MinRows: 1, MaxRows: 8, NoLong: true})
 	q := gen.Single(t, tbl, gen.QOpts{Depth: 0, ExprDepth: 3, NoLimit: true, NoOrder: true, Expr: gen.ExprOpts{NoDiv: true}}, "q")
-	if q.Where == nil {
+	if q.Where == nil && rapid.IntRange(0, 4).Draw(t, "forcewhere") != 0 {
 		w := gen.Expr(t, gen.ScopeOfTable(tbl, "t0"), "bool", rapid.IntRange(1, 3).Draw(t, "wd"), gen.ExprOpts{NoDiv: true}, "forcedw")
 		q.Where = &w
 	}
 	return e2eCase{Table: tbl, Q: q, SQL: q.SQL()}
+}
+
+// ---- (c') nested data through the real record stream ----------------------------------------------------------------------
+
+// nestedCase: a JSON table with a list column l, an object column o {x, y} and a string column s, and one of a fixed set of
+// queries whose WHERE clause is pushed down to the plugin.
+type nestedCase struct {
+	Lines []string `json:"lines"`
+	Query int      `json:"query"`
+}
+
+var nestedQueries = []string{
+	"SELECT * FROM %s n",
+	"SELECT n.l AS l, n.s AS s FROM %s n WHERE len(n.l) > 1",
+	"SELECT n.l[0] AS a, n.l[5] AS z FROM %s n WHERE n.l[0] > 1.0",
+	"SELECT n.o->x AS x, n.o AS o FROM %s n WHERE n.o->x >= 1.0",
+	"SELECT n.s AS s, n.o AS o FROM %s n WHERE len(n.o) = 2",
+	"SELECT n.o->y AS y, n.l AS l FROM %s n WHERE n.o->y IS NOT NULL AND n.l IS NOT NULL",
+	"SELECT n.s AS s FROM %s n WHERE COALESCE(n.o->y, n.s) = 'x' OR len(n.s) = 2",
+}
+
+func genNested(t *rapid.T) nestedCase {
+	ls := []string{"", `"l":null`, `"l":[]`, `"l":[1.5]`, `"l":[1.5,2]`, `"l":[0,-1,3.25]`, `"l":[2,2,2,2,2,7]`}
+	os := []string{"", `"o":null`, `"o":{"x":1,"y":"a"}`, `"o":{"x":2.5,"y":null}`, `"o":{"x":null,"y":"x"}`, `"o":{"x":0.5,"y":"xy"}`}
+	ss := []string{"", `"s":null`, `"s":"x"`, `"s":"y"`, `"s":"xy"`}
+	c := nestedCase{Lines: []string{`{"l":[1.5,2],"o":{"x":1,"y":"a"},"s":"x"}`}, Query: rapid.IntRange(0, len(nestedQueries)-1).Draw(t, "query")}
+	n := rapid.IntRange(0, 6).Draw(t, "rows")
+	for i := 0; i < n; i++ {
+		var parts []string
+		for j, pool := range [][]string{ls, os, ss} {
+			if p := rapid.SampledFrom(pool).Draw(t, fmt.Sprintf("r%dc%d", i, j)); p != "" {
+				parts = append(parts, p)
+			}
+		}
+		c.Lines = append(c.Lines, "{"+strings.Join(parts, ",")+"}")
+	}
+	return c
+}
+
+func nestedProp(r *ev.Rec) func(nestedCase) ev.Outcome {
+	return func(c nestedCase) ev.Outcome {
+		if c.Query < 0 || c.Query >= len(nestedQueries) {
+			return ev.Outcome{Discard: true}
+		}
+		dir := plugkit.CaseDir("n")
+		defer os.RemoveAll(dir)
+		content := strings.Join(c.Lines, "\n") + "\n"
+		if err := os.WriteFile(filepath.Join(dir, "t.json"), []byte(content), 0o644); err != nil {
+			panic(err)
+		}
+		if err := plugkit.Install(filepath.Join(dir, "pl"), "core", "testdb", "1.0.0"); err != nil {
+			panic(err)
+		}
+		native, viaPlugin := fmt.Sprintf(nestedQueries[c.Query], "t.json"), fmt.Sprintf(nestedQueries[c.Query], "testdb.t")
+		rn := cli.RunIn(dir, cli.Inv{Args: []string{native, "-o", "json"}})
+		rp := cli.RunIn(dir, cli.Inv{Args: []string{viaPlugin, "-o", "json"}, Env: append(plugkit.Env(dir), "TESTDB_DIR="+dir)})
+		if rn.TimedOut || rp.TimedOut {
+			return ev.Outcome{Discard: true, Classes: []string{"timeout"}}
+		}
+		o := ev.Outcome{NonTrivial: len(c.Lines) >= 2, Classes: []string{fmt.Sprintf("nested_query_%d", c.Query)}}
+		ctx := fmt.Sprintf("native: %s\n    %s\n  plugin: %s\n    %s\n  table:\n%s", native, rn.Brief(), viaPlugin, rp.Brief(), content)
+		if rp.Crashed() {
+			return ev.Fail("the host process crashes on the plugin query\n  %s", ctx)
+		}
+		if rn.Exit != 0 || rp.Exit != 0 {
+			if rn.Exit != 0 && rp.Exit != 0 {
+				o.Classes = append(o.Classes, "nested_both_fail")
+				return o
+			}
+			return ev.Fail("only one of the two queries succeeds\n  %s", ctx)
+		}
+		gotN, err := cli.ParseJSONOut(rn.Stdout)
+		if err != nil {
+			return ev.Fail("native query: %v\n  %s", err, ctx)
+		}
+		gotP, err := cli.ParseJSONOut(rp.Stdout)
+		if err != nil {
+			return ev.Fail("plugin query: %v\n  %s", err, ctx)
+		}
+		if !sameBag(rowBag(gotN), rowBag(gotP)) {
+			// the recorded finding, for len(object): inside the plugin the call runs the list overload, which yields 0, so
+			// `len(n.o) = 2` keeps no row
+			if r.Known(findingTypeFn) && strings.Contains(nestedQueries[c.Query], "len(n.o)") && len(gotP) == 0 {
+				return ev.Outcome{Excluded: findingTypeFn, Classes: []string{"excluded_" + findingTypeFn}}
+			}
+			return ev.Fail("the plugin-served table answers differently from the file\n  %s", ctx)
+		}
+		if len(gotN) > 0 {
+			o.Classes = append(o.Classes, "nested_rows_returned")
+		}
+		return o
+	}
 }
